@@ -120,8 +120,10 @@ def attribute(f):
         props |= {"C12", "C17"}
         if op in DELETE_EVS:
             props.add("C11")
-    if "Rev" in rules:
+    if rules & {"Rev", "RevBackwards"}:
         props.add("C10")
+    if "OpenTwice" in rules:
+        props.add("C17")
     if rules & STRUCT_RULES:
         props.add("C12")
         if ev in DELETE_EVS:
@@ -251,6 +253,10 @@ def sim_cfg(ops):
 
 def event_to_op(e):
     op = {"ev": e["ev"]}
+    if e["ev"] == "BurstEnd":
+        return {"ev": "Burst", "n": e["a"]["writers"]}
+    if e["ev"] == "Open" and "oks" in (e.get("x") or {}):
+        return {"ev": "OpenRace"}
     op.update(e.get("a") or {})
     for k in ("src", "punch", "cp"):
         op.pop(k, None)
@@ -384,6 +390,15 @@ def run(prop, tier, seed, replay=None):
             if "SpecNotEnabled" in f_["rules"]:
                 raise HarnessError("specification has no step for record %s" % json.dumps(f_)[:2000])
             props = attribute(f_)
+            # history attribution: wrong data / a refused I/O after an earlier successful grow
+            # (revert) in the same execution is also C16's (C06's) business
+            hist = [e for e in by_t[f_["t"]] if e["seq"] < f_["seq"] and e["res"] == "ok"]
+            datafail = (set(f_["rules"]) & {"ReadData", "LiveIsRef", "DirData", "UserSnapImmutable"}) or \
+                       ("Result" in f_["rules"] and f_["ev"] in ("Read", "Write"))
+            if datafail and any(e["ev"] == "Resize" and e["a"]["nb"] > by_t[f_["t"]][0]["a"]["nb"] for e in hist):
+                props.add("C16")
+            if datafail and any(e["ev"] == "Revert" for e in hist):
+                props.add("C06")
             sig = dict(rule=sorted(f_["rules"]), site=f_["ev"], context=context_of(f_))
             if prop not in props:
                 others.append(dict(t=f_["t"], seq=f_["seq"], sig=sig, properties=sorted(props)))
@@ -391,7 +406,7 @@ def run(prop, tier, seed, replay=None):
             evs = by_t[f_["t"]]
             init = evs[0]
             scenario = dict(id=f_["t"], nb=init["a"]["nb"], punch=init["a"]["punch"], src="replay",
-                            ops=[event_to_op(e) for e in evs[1:] if e["seq"] <= f_["seq"]])
+                            ops=[event_to_op(e) for e in evs[1:] if e["seq"] <= f_["seq"] and not e.get("partial")])
             k = match_known(prop, sig)
             rec = dict(property=prop, signature=sig, failed_record=f_, scenario=scenario)
             if k:
@@ -404,7 +419,7 @@ def run(prop, tier, seed, replay=None):
         fps, nontriv = set(), set()
         samples = []
         for t, evs in by_t.items():
-            ops = [event_to_op(e) for e in evs[1:]]
+            ops = [event_to_op(e) for e in evs[1:] if not e.get("partial")]
             fp = fingerprint(ops)
             fps.add(fp)
             if nontrivial(prop, evs):
